@@ -3,6 +3,8 @@ mod c13;
 mod spec;
 mod pcorr;
 mod c01;
+mod invoc;
+mod c02;
 mod c03;
 mod c04;
 mod c06;
@@ -42,6 +44,7 @@ fn main() {
     let rep = match prop.as_str() {
         "C13" => c13::run(&o),
         "C01" => c01::run(&o),
+        "C02" => c02::run(&o),
         "C03" => c03::run(&o),
         "C04" => c04::run(&o),
         "C06" => c06::run(&o),
